@@ -39,9 +39,17 @@ def _model_value(v):
     return str(v)
 
 
-def _worker(conn, smt2, timeout_ms, want_model):
+_PREPARE = {}      # key -> thunk returning (assumptions, goal, negate): evaluated inside the forked worker
+
+
+def _worker(conn, smt2, timeout_ms, want_model, key=None):
     try:
         t0 = time.time()
+        made = None
+        if smt2 is None:
+            ass, goal, negate = _PREPARE[key]()
+            smt2 = to_smt2(ass, goal, negate=negate)
+            made = smt2
         s = z3.Solver()
         s.set('timeout', timeout_ms)
         s.from_string(smt2)
@@ -59,6 +67,9 @@ def _worker(conn, smt2, timeout_ms, want_model):
             out['model'] = mv
         if r == z3.unknown:
             out['reason'] = s.reason_unknown()
+        if made is not None:
+            out['smt2'] = made
+            out['prepare_s'] = round(time.time() - t0 - out['time'], 3) if False else None
         conn.send(out)
     except Exception as e:      # noqa
         conn.send({'status': 'error', 'reason': repr(e), 'time': 0.0, 'backend': 'z3/api'})
@@ -116,7 +127,7 @@ def discharge_all(tasks, timeout_s=30, jobs=None, second=True, progress=None):
         while pending and len(running) < jobs:
             t = pending.pop(0)
             pc, cc = ctx.Pipe(duplex=False)
-            p = ctx.Process(target=_worker, args=(cc, t.smt2, int(timeout_s * 1000), t.want_model))
+            p = ctx.Process(target=_worker, args=(cc, t.smt2, int(timeout_s * 1000), t.want_model, t.key))
             p.start()
             cc.close()
             running.append((t, p, pc, time.time()))
@@ -145,9 +156,14 @@ def discharge_all(tasks, timeout_s=30, jobs=None, second=True, progress=None):
         running = still
         if running:
             time.sleep(0.01)
+    for t in tasks:
+        if t.smt2 is None and results[t.key].get('smt2'):
+            t.smt2 = results[t.key].pop('smt2')
     if second:
         for t in tasks:
             r = results[t.key]
+            if t.smt2 is None:
+                continue
             if r['status'] in ('unknown', 'error'):
                 tried = [r]
                 for r2 in second_opinions(t.smt2, timeout_s):
